@@ -205,6 +205,13 @@ impl Context {
         let removed_from_rc = self.decrease_ref_count(state.memory_block_index);
         if removed_from_rc {
             self.memory_blocks.remove(state.memory_block_index);
+            // removing a memory block shifts the blocks that follow it,
+            // so the indices of the static memory blocks need to follow
+            for static_memory_block_index in self.static_memory_blocks.values_mut() {
+                if *static_memory_block_index > state.memory_block_index {
+                    *static_memory_block_index -= 1;
+                }
+            }
         }
         state
     }
